@@ -21,7 +21,7 @@ import z3
 from eqlvc import z as Z
 from eqlvc.interp import (SV, ZV, C, D, Tup, Lst, Obj, Meth, Closure, Ref, NONE, TRUE, FALSE, State, Outcome,
                           OutOfSubset, NEXT, CONTINUE, BREAK, RETURN, RAISE, GENEXIT)
-from eqlvc.libmodel import LibModel, base_modenv
+from eqlvc.libmodel import LibModel, base_modenv, init_fields
 
 Child = z3.Function('ChildVar', Z.Node, Z.I, Z.Node)        # the argument expression of field number i
 
@@ -502,4 +502,256 @@ class ChildVarsFromKwargs(LibModel):
         return {}
 
 
-CONTRACTS = [InstantiateNew, ProcessOutput, ProcessOutputPredicate, InferPostInit, ChildVarsFromKwargs]
+
+class BindChildVars(LibModel):
+    """Variable._bind_child_vars_(bindings, child_vars, bound): the constructor arguments are evaluated one after the
+    other, each under the bindings made so far.  Contract (C11 "fields of different assignments are never mixed"):
+    every mapping it yields (i) keeps the entries of `bound` as they are, (ii) has exactly one row per listed argument,
+    produced by that argument's own _evaluate__, and (iii) every such row extends `bindings` - for the recursive call
+    `bindings` already contains the rows chosen before, so by induction all rows of one mapping agree with one another;
+    (iv) no argument is evaluated before the rows of the earlier ones are chosen (C07: one row at a time, nothing drained).
+    The recursive call is taken by this contract; it is well-founded on the length of `child_vars` (0, 1 and 2 listed
+    arguments are executed; the tail is arbitrary through the contract)."""
+    qual = 'symbolic:Variable._bind_child_vars_'
+    cls = 'Variable'
+    props = ('C11', 'C07')
+    modes = ('sound',)
+    trusted = ("interface contract I for the arguments' _evaluate__: a row extends the sources it was given",)
+
+    def modenv(self):
+        return base_modenv()
+
+    def setup(self, eng):
+        sts = []
+        for n in (0, 1, 2):
+            for nb in (0, 1):
+                st = State()
+                st.fields = init_fields()
+                self.n = z3.Const('self', Z.Node)
+                st.locals['self'] = ZV(self.n, 'node')
+                st.ghost['self'] = self.n
+                b = eng.new_dict(st, Z.ZMap.fresh('bindings'))
+                st.ghost['bindings0'] = st.dicts[b.ref]
+                st.locals['bindings'] = b
+                vars_ = [z3.Const(f'arg{i + 1}', Z.Node) for i in range(n)]
+                st.locals['child_vars'] = Lst([Tup([C(f'f{i + 1}'), ZV(v, 'node')]) for i, v in enumerate(vars_)], eng.new_ref())
+                prior = []
+                for j in range(nb):
+                    d = eng.new_dict(st, Z.ZMap.fresh(f'prior{j}'))
+                    prior.append((C(f'p{j}'), d))
+                st.locals['bound'] = Obj('pymap', {'items': prior})
+                st.ghost['prior'] = [(k.v, d.ref, st.dicts[d.ref]) for k, d in prior]
+                st.ghost['names'] = [f'f{i + 1}' for i in range(n)]
+                st.ghost['vars'] = vars_
+                st.ghost['producer'] = {}
+                st.path.append(f"arguments={n},already-bound={nb}")
+                sts.append(st)
+        return sts
+
+    def dict_display(self, eng, st, e):
+        outs = [(st, [])]
+        for k, v in zip(e.keys, e.values):
+            nxt = []
+            for s, items in outs:
+                if k is None:
+                    for s2, dv in eng.eval(v, s):
+                        if not (isinstance(dv, Obj) and dv.kind == 'pymap'):
+                            return None
+                        nxt.append((s2, items + list(dv.data['items'])))
+                else:
+                    for s2, kv in eng.eval(k, s):
+                        for s3, vv in eng.eval(v, s2):
+                            nxt.append((s3, [(a, b) for a, b in items if not (isinstance(a, C) and isinstance(kv, C) and a.v == kv.v)] + [(kv, vv)]))
+            outs = nxt
+        if not e.keys:
+            return None
+        return [(s, Obj('pymap', {'items': items})) for s, items in outs]
+
+    def f_dict(self, eng, st, args, kwargs, node):
+        if len(args) == 1 and isinstance(args[0], Obj) and args[0].kind == 'pymap':
+            return [(st, Obj('pymap', {'items': list(args[0].data['items'])}))]
+        return super().f_dict(eng, st, args, kwargs, node)
+
+    def node__evaluate__(self, eng, st, recv, args, kwargs, node):
+        if len(args) != 1 or kwargs or not isinstance(args[0], D):
+            raise OutOfSubset("an argument evaluated with something else than one dict", node)
+        return [(st, Obj('argstream', {'node': recv.t, 'sigma': args[0].ref}))]
+
+    def node__bind_child_vars_(self, eng, st, recv, args, kwargs, node):
+        ok = recv.t.eq(self.n) and len(args) == 3 and not kwargs and isinstance(args[0], D) and isinstance(args[1], Lst) \
+            and isinstance(args[2], Obj) and args[2].kind == 'pymap'
+        if not ok:
+            raise OutOfSubset("recursive call of another shape", node)
+        mine = st.locals['child_vars']
+        eng.oblige(st, "C11/bind-args/recursion-is-on-fewer-arguments", z3.BoolVal(len(args[1].items) < len(mine.items)), line=node.lineno)
+        return [(st, Obj('deeper', {'bindings': args[0].ref, 'vars': list(args[1].items), 'bound': list(args[2].data['items'])}))]
+
+    def abstract_loop(self, eng, st, s, it, ordinal):
+        if isinstance(it, Obj) and it.kind == 'argstream':
+            outs = [Outcome(st)]
+            b = st.clone()
+            row = eng.new_dict(b, Z.ZMap.fresh('value'))
+            b.assume(b.dicts[row.ref].extends(b.dicts[it.data['sigma']]))
+            b.ghost['producer'] = {**b.ghost['producer'], row.ref: (it.data['node'], b.dicts[it.data['sigma']])}
+            for b2 in eng.assign(s.target, row, b):
+                for o in eng.exec_block(s.body, b2):
+                    outs.append(Outcome(o.st) if o.sig in (NEXT, CONTINUE, BREAK) else o)
+            return outs
+        return super().abstract_loop(eng, st, s, it, ordinal)
+
+    def _post(self, eng, st, items, tag, line, deeper=None):
+        """items: [(C(name), D row)] of the yielded mapping"""
+        names = [k.v for k, _ in items if isinstance(k, C)]
+        want = [p[0] for p in st.ghost['prior']] + st.ghost['names']
+        eng.oblige(st, f"C11/bind-args@{tag}/one-entry-per-argument-and-per-earlier-entry", z3.BoolVal(sorted(names) == sorted(want)), line=line)
+        by = {k.v: v for k, v in items if isinstance(k, C)}
+        for nm, ref, m0 in st.ghost['prior']:
+            v = by.get(nm)
+            eng.oblige(st, f"C11/bind-args@{tag}/earlier-entry-{nm}-is-kept", st.dicts[v.ref].same(m0) if isinstance(v, D) else z3.BoolVal(False), line=line)
+        for nm, var in zip(st.ghost['names'], st.ghost['vars']):
+            v = by.get(nm)
+            if not isinstance(v, D):
+                eng.oblige(st, f"C11/bind-args@{tag}/{nm}-is-a-row-of-its-own-argument-under-the-bindings-made-so-far", z3.BoolVal(False), line=line)
+                continue
+            prod = st.ghost['producer'].get(v.ref)
+            if prod is not None:
+                ok = z3.And(prod[0] == var, prod[1].extends(st.ghost['bindings0']))
+            elif deeper is not None and nm in deeper:
+                ok = z3.BoolVal(True)         # by the contract of the recursive call, whose bindings extend ours (obliged there)
+            else:
+                ok = z3.BoolVal(False)
+            eng.oblige(st, f"C11/bind-args@{tag}/{nm}-is-a-row-of-its-own-argument-under-the-bindings-made-so-far", ok, line=line)
+            eng.oblige(st, f"C11/bind-args@{tag}/{nm}-agrees-with-the-given-bindings", st.dicts[v.ref].extends(st.ghost['bindings0']), line=line)
+        eng.oblige(st, f"cover@{tag}", z3.BoolVal(True), kind='cover', line=line)
+
+    def yield_from(self, eng, st, src, ordinal, node):
+        if not (isinstance(src, Obj) and src.kind == 'deeper'):
+            raise OutOfSubset("yield from something else than the recursive call", node)
+        b = st.clone()
+        nb = b.dicts[src.data['bindings']]
+        eng.oblige(b, f"C11/bind-args@yield#{ordinal}/the-recursive-call-gets-the-bindings-made-so-far", nb.extends(b.ghost['bindings0']), line=node.lineno)
+        # its contract: the entries handed down are kept; one row per remaining argument, each extending the bindings handed down
+        items = list(src.data['bound'])
+        deeper = set()
+        for t in src.data['vars']:
+            k, v = t.items
+            row = eng.new_dict(b, Z.ZMap.fresh('deeper_' + str(k.v)))
+            b.assume(b.dicts[row.ref].extends(nb))
+            items.append((k, row))
+            deeper.add(k.v)
+        # every row chosen at this level is part of the bindings handed down (so the deeper rows agree with it)
+        for k, v in src.data['bound']:
+            if isinstance(v, D) and v.ref in b.ghost['producer']:
+                eng.oblige(b, f"C11/bind-args@yield#{ordinal}/the-bindings-handed-down-contain-the-row-chosen-for-{k.v}", nb.extends(b.dicts[v.ref]), line=node.lineno)
+        self._post(eng, b, items, f"yield#{ordinal}", node.lineno, deeper=deeper)
+        return [Outcome(st), Outcome(b)]
+
+    def on_yield(self, eng, st, v, ordinal, node):
+        if not (isinstance(v, Obj) and v.kind == 'pymap'):
+            raise OutOfSubset("yield of something else than a mapping name -> row", node)
+        self._post(eng, st, list(v.data['items']), f"yield#{ordinal}", node.lineno)
+        return [st]
+
+    def on_exit(self, eng, o):
+        if o.sig == RAISE:
+            eng.oblige(o.st, "C11/bind-args/no-exception", z3.BoolVal(False))
+
+    def signature(self, ob, model):
+        return {}
+
+
+class GenerateChildCombinations(LibModel):
+    """Variable._generate_combinations_for_child_vars_values_(sources): everything it yields comes from ONE call of
+    _bind_child_vars_ with a copy of `sources` (or an empty dict), every constructor argument in order, and nothing bound yet;
+    it evaluates no argument itself (so nothing is drained ahead of the consumer: C07)."""
+    qual = 'symbolic:Variable._generate_combinations_for_child_vars_values_'
+    cls = 'Variable'
+    props = ('C11', 'C07')
+    modes = ('sound',)
+
+    def modenv(self):
+        return base_modenv()
+
+    def setup(self, eng):
+        sts = []
+        for given in ('none', 'dict'):
+            st = State()
+            st.fields = init_fields()
+            self.n = z3.Const('self', Z.Node)
+            st.locals['self'] = ZV(self.n, 'node')
+            st.ghost['self'] = self.n
+            if given == 'dict':
+                d = eng.new_dict(st, Z.ZMap.fresh('sources'))
+                st.locals['sources'] = d
+                st.ghost['sources0'] = st.dicts[d.ref]
+                st.ghost['sources_ref'] = d.ref
+            else:
+                st.locals['sources'] = NONE
+                st.ghost['sources0'] = None
+            st.ghost['delegated'] = []
+            st.ghost['evaluated'] = 0
+            st.path.append(f"sources={given}")
+            sts.append(st)
+        return sts
+
+    def getattr(self, eng, st, recv, name):
+        if isinstance(recv, ZV) and recv.ty == 'node' and recv.t.eq(self.n) and name == '_child_vars_':
+            return [(st, Obj('childvars', {}))]
+        return super().getattr(eng, st, recv, name)
+
+    def obj_childvars_items(self, eng, st, recv, args, kwargs, node):
+        return [(st, Obj('childvar_items', {}))]
+
+    def f_list(self, eng, st, args, kwargs, node):
+        if len(args) == 1 and isinstance(args[0], Obj) and args[0].kind == 'childvar_items':
+            return [(st, Obj('childvar_items', {'listed': True}))]
+        return super().f_list(eng, st, args, kwargs, node)
+
+    def node__evaluate__(self, eng, st, recv, args, kwargs, node):
+        st = st.clone()
+        st.ghost['evaluated'] += 1
+        raise OutOfSubset("an argument is evaluated outside _bind_child_vars_", node)
+
+    def node__bind_child_vars_(self, eng, st, recv, args, kwargs, node):
+        st = st.clone()
+        st.ghost['delegated'] = st.ghost['delegated'] + [(recv, list(args), dict(kwargs))]
+        return [(st, Obj('binder', {'args': list(args)}))]
+
+    def yield_from(self, eng, st, src, ordinal, node):
+        ok = isinstance(src, Obj) and src.kind == 'binder'
+        eng.oblige(st, f"C11/arg-combinations@yield#{ordinal}/everything-comes-from-the-lazy-binder", z3.BoolVal(bool(ok)), line=node.lineno)
+        if not ok:
+            return [Outcome(st)]
+        a = src.data['args']
+        shape = len(a) == 3 and isinstance(a[0], D) and isinstance(a[1], Obj) and a[1].kind == 'childvar_items' and isinstance(a[2], D)
+        eng.oblige(st, f"C11/arg-combinations@yield#{ordinal}/all-arguments-in-order-nothing-bound-yet", z3.BoolVal(bool(shape)), line=node.lineno)
+        if shape:
+            s0 = st.ghost['sources0']
+            first = st.dicts[a[0].ref]
+            eng.oblige(st, f"C11/arg-combinations@yield#{ordinal}/starts-from-the-incoming-bindings",
+                       first.same(s0) if s0 is not None else first.is_empty(), line=node.lineno)
+            if s0 is not None:
+                eng.oblige(st, f"C11/arg-combinations@yield#{ordinal}/on-a-copy-of-the-incoming-bindings",
+                           z3.BoolVal(a[0].ref != st.ghost['sources_ref']), line=node.lineno)
+            eng.oblige(st, f"C11/arg-combinations@yield#{ordinal}/nothing-bound-yet", st.dicts[a[2].ref].is_empty(), line=node.lineno)
+        eng.oblige(st, f"cover@yield#{ordinal}", z3.BoolVal(True), kind='cover', line=node.lineno)
+        st = st.clone()
+        st.ghost['yielded_from_binder'] = st.ghost.get('yielded_from_binder', 0) + 1
+        return [Outcome(st)]
+
+    def on_yield(self, eng, st, v, ordinal, node):
+        eng.oblige(st, f"C11/arg-combinations@yield#{ordinal}/everything-comes-from-the-lazy-binder", z3.BoolVal(False), line=node.lineno)
+        return [st]
+
+    def on_exit(self, eng, o):
+        st = o.st
+        if o.sig == RAISE:
+            eng.oblige(st, "C11/arg-combinations/no-exception", z3.BoolVal(False))
+            return
+        eng.oblige(st, "C11/arg-combinations/the-binder-is-consumed-exactly-once", z3.BoolVal(st.ghost.get('yielded_from_binder', 0) == 1))
+
+    def signature(self, ob, model):
+        return {}
+
+CONTRACTS = [InstantiateNew, ProcessOutput, ProcessOutputPredicate, InferPostInit, ChildVarsFromKwargs, BindChildVars,
+             GenerateChildCombinations]
